@@ -142,8 +142,11 @@ def positions(w, rng, limit):
                                 o, c = start, ln
                                 endl = s.eline
                                 ipad = " " * (len(lines[endl]) - len(lines[endl].lstrip()))
-                                out.append(("open-block-at-bare-end", f, (lambda lines=lines, o=o, c=c, endl=endl, ipad=ipad: (
-                                    lines[:c] + lines[c + 1:endl] + [ipad + "end"] + lines[endl + 1:], {"sev": 1, "lines": {o, endl - 1}, "word": None, "cascade_after": endl - 1}))))
+                                # a construct with guard/branch statements (SELECT, IF ... ELSE, WHERE ... ELSEWHERE) is open in its last region: the
+                                # report may sit on the opening line or on any of its branch lines
+                                mids = {l2 for l2, r2, s2 in roles if s2 is s and r2 == "mid" and o < l2 < c}
+                                out.append(("open-block-at-bare-end", f, (lambda lines=lines, o=o, c=c, endl=endl, ipad=ipad, mids=mids: (
+                                    lines[:c] + lines[c + 1:endl] + [ipad + "end"] + lines[endl + 1:], {"sev": 1, "lines": {o, endl - 1} | mids, "word": None, "cascade_after": endl - 1}))))
                                 start = None
                 # 13b procedure nested in a block construct
                 for ln, r, sc in roles:
